@@ -174,6 +174,11 @@ def matrix(tier):
                     for qp in ((False, True) if any(ord(c) > 126 for c in nm) else (False,)):
                         out.append({"files": [f] + ([] if is_pattern else [{"path": "a.txt", "pattern": True, "status": "clean"}]),
                                     "allow_dirty": allow, "pre_hook": False, "quotepath": qp})
+    # many dirty files: the pattern file is the last of more than ten entries of the status listing
+    for status in ("modified-unstaged", "modified-staged", "untracked"):
+        for allow in (False, True):
+            many = [{"path": "aa%02d.txt" % i, "pattern": False, "status": "modified-unstaged"} for i in range(12)]
+            out.append({"files": many + [{"path": "zz.txt", "pattern": True, "status": status}], "allow_dirty": allow, "pre_hook": False})
     return out
 
 
